@@ -6,6 +6,8 @@
 package routing
 
 import (
+	"sync"
+
 	log "github.com/sirupsen/logrus"
 
 	"github.com/dtn7/dtn7-go/pkg/bpv7"
@@ -16,6 +18,10 @@ import (
 // flooding-based epidemic way.
 type EpidemicRouting struct {
 	c *Core
+
+	// failureMutex serializes ReportFailure, which is called from one goroutine per ConvergenceSender and
+	// performs a read-modify-write on the bundle's store item.
+	failureMutex sync.Mutex
 }
 
 // NewEpidemicRouting creates a new EpidemicRouting Algorithm interacting
@@ -155,6 +161,9 @@ func (er *EpidemicRouting) SenderForBundle(bp BundleDescriptor) (css []cla.Conve
 }
 
 func (er *EpidemicRouting) ReportFailure(bp BundleDescriptor, sender cla.ConvergenceSender) {
+	er.failureMutex.Lock()
+	defer er.failureMutex.Unlock()
+
 	bi, biErr := er.c.store.QueryId(bp.Id)
 	if biErr != nil {
 		log.WithFields(log.Fields{
